@@ -12,8 +12,8 @@ import random
 ID = "C14"
 LEVEL = "exploration"
 TECHNIQUE = "shadow-registry oracle after every operation + icontract class invariant on Model"
-RULE = ("alphabet {create a, create b, create p (an agent whose initialize() creates a companion agent), a creation whose initialize() raises, delete_agents(agent_ids(a)) with the model's own list, create_agents(a,2), delete oldest, delete newest, delete two ids, delete unknown id, "
-        "configure_agents, Model.configure(dictionary), reset, flip state}: ALL sequences of length<=4 (quick) / <=5 (thorough), plus seeded random sequences "
+RULE = ("alphabet {create a, create b, create p (an agent whose initialize() creates a companion agent), a creation whose initialize() raises, a creation whose initialize() deletes the oldest agent of its own type, delete_agents(agent_ids(a)) with the model's own list, create_agents(a,2), delete oldest, delete newest, delete two ids, delete unknown id, "
+        "configure_agents, Model.configure(dictionary), reset, flip state}: ALL sequences of length<=3 (quick) / <=5 (thorough), plus 2500 / 8000 seeded random sequences "
         "of length 10-40; after every operation agent(id) for every id ever issued, agent_ids/agent_count per type, "
         "agent_count_per_state and next_agent per (type,state), random_agents. distinct_nontrivial = distinct operation "
         "sequences that contain at least one deletion/reconfiguration followed by a query on a non-empty population.")
@@ -21,19 +21,19 @@ ASSUMPTIONS = ["agent_ids order is not judged (compared as multisets)", "models 
 REQUIRED = {"queries": 10000, "invariant_evaluations": 1000}
 BUDGET_S = {"quick": 100, "thorough": 1200}
 
-OPS = ["create_a", "create_b", "create_a2", "del_oldest", "del_newest", "del_two", "del_unknown", "configure", "reset", "flip", "create_p", "del_all_a_alias", "create_fail", "configure_dict"]
-TYPES = ("a", "b", "p", "x")
+OPS = ["create_a", "create_b", "create_a2", "del_oldest", "del_newest", "del_two", "del_unknown", "configure", "reset", "flip", "create_p", "del_all_a_alias", "create_fail", "configure_dict", "create_r"]
+TYPES = ("a", "b", "p", "x", "r")
 STATES = ["active", "idle"]
 
 
 def gen_cases(tier, seed):
-    L = 4 if tier == "quick" else 5
+    L = 3 if tier == "quick" else 5
     cases = []
     # exhaustive part: one case per 2-op prefix, enumerating all continuations up to L
     for p in itertools.product(range(len(OPS)), repeat=2):
         cases.append(dict(kind="enum", prefix=list(p), L=L))
     rng = random.Random(77 + seed)
-    n = 300 if tier == "quick" else 6000
+    n = 2500 if tier == "quick" else 8000
     for i in range(n):
         cases.append(dict(kind="random", seq=[rng.randrange(len(OPS)) for _ in range(rng.randint(10, 40))]))
     # the repository's own ABM tests, run with the registry / routing / statistics contracts switched on
@@ -97,6 +97,14 @@ def new_model():
             self.model.create_agent("b", None)
     m.register_agent_factory("p", lambda i, mod, p: Parent(i, mod, p, "p"))
 
+    class Replacer(Agent):
+        # a newcomer that removes its predecessor: initialize() deletes the oldest agent of its own type
+        def initialize(self):
+            ids = list(self.model.agent_ids("r"))
+            if ids:
+                self.model.delete_agent(min(ids))
+    m.register_agent_factory("r", lambda i, mod, p: Replacer(i, mod, p, "r"))
+
     class Broken(Agent):
         # an agent whose set-up fails (it reads a property its specification forgot)
         def initialize(self):
@@ -143,6 +151,14 @@ def apply(m, sh, op, counters):
             if a2.id in sh.issued:
                 return dict(kind="id-reused", id=a2.id)
             sh.created(a2, a2.agent_type)
+    elif name == "create_r":
+        old_r = sorted(i for i, (t, _s) in sh.live.items() if t == "r")
+        ag = m.create_agent("r", None)
+        if ag.id in sh.issued:
+            return dict(kind="id-reused", id=ag.id)
+        if old_r:
+            del sh.live[old_r[0]]
+        sh.created(ag, "r")
     elif name == "del_all_a_alias":
         # the list the model itself handed out is passed straight back
         ids = m.agent_ids("a")
